@@ -6,6 +6,7 @@ package badger
 
 import (
 	"bytes"
+	"context"
 	"crypto/sha1"
 	"fmt"
 	"os"
@@ -1255,6 +1256,11 @@ func lsmCheck(x *seqExec, op string) (string, string) {
 			return c, d
 		}
 	}
+	if x.j.Bool("ttl_stream", false) && st.normal && !st.opts.InMemory {
+		if c, d := lsmCheckStreamBackup(x); c != "" {
+			return c, d
+		}
+	}
 	switch st.oracle {
 	case "c29": // reads equal the model (dropped keys invisible, everything else unchanged) and the tree is well formed
 		if c, d := lsmCheckReads(x); c != "" {
@@ -1280,7 +1286,115 @@ func lsmCheck(x *seqExec, op string) (string, string) {
 	return "", ""
 }
 
+var lsmScenario = &seqScenario{name: "lsm", open: lsmOpen, enabled: lsmEnabled, apply: lsmApply, check: lsmCheck, key: lsmKey, close: lsmClose,
+	describe: func(x *seqExec) string { return shapeString(x.db) }}
+
 func init() {
-	registerSeq(&seqScenario{name: "lsm", open: lsmOpen, enabled: lsmEnabled, apply: lsmApply, check: lsmCheck, key: lsmKey, close: lsmClose,
-		describe: func(x *seqExec) string { return shapeString(x.db) }})
+	registerSeq(lsmScenario)
+	// c33stream (E-enum): every history of up to N steps over {TTL set, plain set, delete, clock
+	// advance past the TTL, flush, compaction} on the lsm scenario, each followed by the full read
+	// oracle plus a Stream run and a Backup + Load into a fresh database.
+	registerEnum("c33stream", func(e *enumCtx) {
+		e.journal = true
+		maxLen := e.j.Int("len", 3)
+		alphabet := []string{"La", "Sa", "Da", "A", "F", "C0"}
+		if e.j.Params == nil {
+			e.j.Params = map[string]any{}
+		}
+		for k, v := range map[string]any{"oracle": "c12", "mode": "normal", "keys": 1, "ttl": true, "ttl_stream": true, "l0_tables": 1} {
+			e.j.Params[k] = v
+		}
+		var rec func(seq []string)
+		rec = func(seq []string) {
+			if e.stop() {
+				return
+			}
+			if len(seq) > 0 {
+				s := append([]string{}, seq...)
+				e.do(strings.Join(s, ","), func() (string, string) {
+					_, class, desc, _, _ := lsmScenario.run(e.t, e.j, s, false, false)
+					return class, desc
+				})
+			}
+			if len(seq) == maxLen {
+				return
+			}
+			for _, op := range alphabet {
+				if len(seq) == 0 && (op == "A" || op == "F" || op == "C0" || op == "Da") {
+					continue
+				}
+				rec(append(seq, op))
+			}
+		}
+		rec(nil)
+	})
+}
+
+// lsmCheckStreamBackup (C33): a Stream run and a Backup + Load into a fresh database show a key
+// exactly when the model does (an expired entry is delivered / restored as invisible).
+func lsmCheckStreamBackup(x *seqExec) (string, string) {
+	st := x.st.(*lsmState)
+	want := map[string]string{}
+	ts := x.db.orc.nextTs() - 1
+	for _, k := range st.keys {
+		if o := st.modelRead(k, ts); o.Val != "<nil>" {
+			want[k] = o.Val
+		}
+	}
+	col := &c25Collector{}
+	s := x.db.NewStream()
+	s.NumGo = 2
+	s.Send = col.send
+	if err := s.Orchestrate(context.Background()); err != nil {
+		return "stream-error", err.Error()
+	}
+	got := map[string]string{}
+	for _, kv := range col.kvs {
+		if !kv.StreamDone {
+			if _, dup := got[string(kv.Key)]; dup {
+				return "expiry-stream", fmt.Sprintf("stream delivered key %q twice", kv.Key)
+			}
+			got[string(kv.Key)] = string(kv.Value)
+		}
+	}
+	if fmt.Sprint(got) != fmt.Sprint(want) {
+		return "expiry-stream", fmt.Sprintf("Stream delivered %d keys %v, the model shows %d visible keys (expired and deleted entries must not be delivered)", len(got), keysOf(got), len(want))
+	}
+	var buf bytes.Buffer
+	if _, err := x.db.Backup(&buf, 0); err != nil {
+		return "backup-error", err.Error()
+	}
+	o := smallOpts(x.dir + "/restore")
+	rdb, err := Open(o)
+	if err != nil {
+		return "backup-load-error", err.Error()
+	}
+	defer func() {
+		_ = rdb.Close()
+		_ = os.RemoveAll(x.dir + "/restore")
+	}()
+	if err := rdb.Load(&buf, 4); err != nil {
+		return "backup-load-error", err.Error()
+	}
+	vis, e := c24Visible(rdb)
+	if e != "" {
+		return "backup-read-error", e
+	}
+	got = map[string]string{}
+	for k, v := range vis {
+		got[k] = v.val
+	}
+	if fmt.Sprint(got) != fmt.Sprint(want) {
+		return "expiry-backup", fmt.Sprintf("Backup + Load shows keys %v, the model shows %d visible keys", keysOf(got), len(want))
+	}
+	return "", ""
+}
+
+func keysOf(m map[string]string) []string {
+	ks := make([]string, 0, len(m))
+	for k := range m {
+		ks = append(ks, k)
+	}
+	sort.Strings(ks)
+	return ks
 }
